@@ -16,29 +16,40 @@ Inductive mvalue :=
 Record duration := { secs : N; nanos : N }.
 Definition dur_ok (d : duration) : Prop := (secs d < 2 ^ 64)%N /\ (nanos d < 10 ^ 9)%N.
 
+(* types.rs ErrorKind (the two kinds a metric call can report) *)
+Inductive errkind := InvalidInput | IoError.
+
+(* types.rs MetricError, as far as a caller can observe it: its kind and, for IoError, the wrapped
+   io::Error identified by (its io::ErrorKind, a payload identity).  The error a metric call reports;
+   it is the library's own (EInvalid from the Duration guards and the empty packed list, EIo from a
+   refusing sink) or whatever a user-defined To*Value impl returned. *)
+Inductive merror := EInvalid | EIo (k : N) (id : N).      (* kind InvalidInput / IoError+source *)
+Definition ekind (e : merror) : errkind :=
+  match e with EInvalid => InvalidInput | EIo _ _ => IoError end.
+
 (* the argument of a metric call, by Rust type *)
 Inductive arg :=
 | AI64 (z : Z) | AI32 (z : Z) | AU64 (n : N) | AU32 (n : N) | AF64 (t : str)
 | ADur (d : duration) | AVecU64 (l : list N) | AVecF64 (l : list str) | AVecDur (l : list duration)
-| AUser (v : mvalue).     (* a user-defined type whose To*Value impl returns Ok(v) *)
-
-Inductive errkind := InvalidInput | IoError.
+| AUser (v : mvalue)      (* a user-defined type whose To*Value impl returns Ok(v) *)
+| AUserErr (e : merror).  (* a user-defined type whose To*Value impl returns Err(e) *)
 
 Definition u64_max : N := (2 ^ 64 - 1)%N.
 Definition as_millis (d : duration) : N := (secs d * 1000 + nanos d / 1000000)%N.   (* u128 *)
 Definition as_nanos (d : duration) : N := (secs d * 1000000000 + nanos d)%N.        (* u128 *)
 Definition cast_u64 (n : N) : N := (n mod 2 ^ 64)%N.                                 (* `as u64` *)
 
-Definition conv_dur (f : duration -> N) (d : duration) : errkind + mvalue :=
-  if (u64_max <? f d)%N then inl InvalidInput else inr (Unsigned (cast_u64 (f d))).
-Definition conv_durs (f : duration -> N) (l : list duration) : errkind + mvalue :=
-  if existsb (fun d => (u64_max <? f d)%N) l then inl InvalidInput
+Definition conv_dur (f : duration -> N) (d : duration) : merror + mvalue :=
+  if (u64_max <? f d)%N then inl EInvalid else inr (Unsigned (cast_u64 (f d))).
+Definition conv_durs (f : duration -> N) (l : list duration) : merror + mvalue :=
+  if existsb (fun d => (u64_max <? f d)%N) l then inl EInvalid
   else inr (PackedUnsigned (map (fun d => cast_u64 (f d)) l)).
 
 (* None = no such impl (the call does not type-check) *)
-Definition to_value (k : kind) (a : arg) : option (errkind + mvalue) :=
+Definition to_value (k : kind) (a : arg) : option (merror + mvalue) :=
   match a with
   | AUser v => Some (inr v)
+  | AUserErr e => Some (inl e)         (* for every kind: the impl is the user's *)
   | _ =>
   match k, a with
   | Counter, AI64 z | Counter, AI32 z => Some (inr (Signed z))
